@@ -6,6 +6,9 @@ sys.path.insert(0, '/verif/mirsym')
 CLAIMED = {
  'C01': ('block-level conservation: every input block/token appears exactly once, in order, in the same container and kind, in the projected '
          'GraphBlocks, for every block sequence within the bounds', '3 C01'),
+ 'C02': ('format(format(x)) == format(x) as text, decided by executing the real builder, projector and writer twice from MIR with a reference reader '
+         '(CommonMark block structure, validated against the real reader) in between; symbolic heading depths and ordered-list item numbers; '
+         'block-structured notes of one-word texts (inline escaping, tables\' own text and front matter are outside)', '3 C02'),
  'C03': ('panic-freedom of blocks -> graph -> tree -> projection: every reachable panic edge of the real MIR within the bounds is reported', '3 C03'),
  'C04': ('incremental == fresh at Graph level: after every update_key step of every history within the bounds, all observations equal those of a from-scratch import of the current documents (parser stubbed)', '3 C04'),
  'C05': ('backlink index == independent scan of the documents, for block and inline links, on fresh and incrementally updated graphs', '3 C05'),
@@ -15,7 +18,7 @@ CLAIMED = {
  'C08': ('rename through the real handle_rename at tree level: refused onto an existing note; old name deleted and new name created exactly once; exactly the linking notes and the new note are written; no link to the old name remains, every such link now points to the new name, all other links and all text kept', '3 C08'),
  'C09': ('extract / inline code actions at tree level: text conserved exactly once across the edited notes, fresh distinct names, one titled reference per extracted section, inlined note deleted and its links re-relativised, for every node x provider within the bounds', '3 C09'),
  'C10': ('list/section conversions at tree level: only the note is rewritten, every word and link kept in order, only the targeted list changes type', '3 C10'),
- 'C11': ('the notification step of the message loop for every number of live request workers (symbolic count of Arc clones, fairness: workers terminate): every didChange / didSave is applied, other notifications change nothing', '3 C11'),
+ 'C11': ('sessions of the message loop through the real Router::handle_message: 1-2 edit notifications each meeting 0..3 request workers whose still-running flags are symbolic (fairness: workers terminate), symbolic edit versions: every didChange / didSave is applied, the idle state is the last text sent, other notifications change nothing', '3 C11'),
  'C12': ('handler -> liwe boundary for code actions: no panic edge reachable in action()/changes() for any node x provider, every offered action resolves', '3 C12'),
  'C13': ('offset -> line/column kernels: to_line_range / to_inline_range for every sorted line table and byte range (symbolic 64-bit), line_starts for every line structure with LF / CRLF terminators and symbolic line lengths', '3 C13'),
  'C17': ('squash == independent bounded expansion for every reference graph within the bounds and symbolic u8 depth; termination (call-depth bound never hit); CLI rebuild of the squashed tree is faithful', '3 C17'),
@@ -23,7 +26,6 @@ CLAIMED = {
  'C20': ('arena representation invariant established by every build within the bounds', '3 C20'),
 }
 NA = {
- 'C02': 'property is about re-parsing emitted text: string rendering and pulldown-cmark are outside what either engine can execute symbolically (DESIGN 3 C02)',
  'C14': 'percent-encoded URL string surgery plus directory walking; no integer kernel, file system not encodable (DESIGN 3 C14)',
  'C15': 'the law lives in third-party byte-level path code (relative-path); the executor only has a model of it, which cannot be the deciding step (DESIGN 3 C15)',
  'C16': 'scheduler and hash-seed nondeterminism are environment, not program data (DESIGN 3 C16)',
